@@ -28,8 +28,8 @@ def fp(obj, depth=0):
         return ("npscalar", str(obj.dtype), obj.item())
     if cls == "Array" and hasattr(obj, "_array"):
         return ("Array", _arr(obj._array), str(obj.unit), obj.name)
-    if cls == "Vector" and hasattr(obj, "_xyz"):
-        return ("Vector", obj.name, tuple((c, fp(x, depth + 1)) for c, x in obj._xyz.items()))
+    if cls == "Vector" and hasattr(obj, "x"):
+        return ("Vector", obj.name, tuple((c, fp(getattr(obj, c), depth + 1)) for c in "xyz" if getattr(obj, c) is not None))
     if cls == "Datagroup" and hasattr(obj, "_container"):
         return ("Datagroup", obj.name, tuple((k, fp(v, depth + 1)) for k, v in obj.items()))
     if cls in ("Dataset", "RamsesDataset") and hasattr(obj, "groups"):
